@@ -20,6 +20,10 @@ type FuncResult struct {
 // verifyFunction generates all obligations of one function under contract.
 func (w *World) verifyFunction(fn *ssa.Function, ct *Contract, tag string, safeAll bool) *FuncResult {
 	vc := newVC()
+	vc.litNames = w.db.LitNames
+	for _, l := range w.db.LitOrder {
+		vc.strLit(l)
+	}
 	e := &encoder{prog: w.prog, vc: vc, db: w.db, tag: tag, root: fn, modPath: w.modPath, obSeq: map[string]int{}, safeAll: safeAll}
 	e.consts = &constInfo{e: e, repoFns: w.repoFns, status: map[*ssa.Global]*globalConst{}}
 	e.ms = &modsetCache{e: e, memo: map[*ssa.Function]*modSet{}, active: map[*ssa.Function]bool{}}
@@ -72,6 +76,13 @@ func (w *World) verifyFunction(fn *ssa.Function, ct *Contract, tag string, safeA
 		}
 	}
 	fr.old = st.clone()
+	if ct != nil && ct.HasMods && !ct.Trusted {
+		e.frameCheck = true
+		ctx := fr.specCtx(st, st, nil, nil, 0)
+		for _, m := range ct.Mods {
+			e.declMods = append(e.declMods, fr.declaredMods(m, ctx)...)
+		}
+	}
 	entryFacts := len(vc.facts)
 	fr.run(st)
 	// postconditions
@@ -91,7 +102,7 @@ func (w *World) verifyFunction(fn *ssa.Function, ct *Contract, tag string, safeA
 			if ctx.results == nil {
 				ctx.results = []Term{}
 			}
-			g, err := ctx.trBool(cl.Expr)
+			g, err := ctx.goal(cl.Expr)
 			fr.curBlock = nil
 			if err != nil {
 				vc.warn("%s: ensures %q: %v", shortFn(fn), cl.Text, err)
@@ -125,11 +136,80 @@ func (fr *frame) checkAsserts(anchor string, st *State) {
 			continue
 		}
 		ctx := fr.specCtx(st, fr.oldState(), nil, fr.curBlock, fr.curIdx)
-		g, err := ctx.trBool(cl.Expr)
+		g, err := ctx.goal(cl.Expr)
 		if err != nil {
 			fr.vc().warn("%s: assert %q: %v", shortFn(fr.fn), cl.Text, err)
 			g = "false"
 		}
 		fr.oblige("assert", "", fmt.Sprintf("%s#%d", strings.ReplaceAll(anchor, " ", "_"), i), st, g, cl.Text, cl.Tags)
 	}
+}
+
+// declaredMods turns a modifies item of the root contract into the set of
+// locations the body may write.
+func (fr *frame) declaredMods(m ModSpec, ctx *specCtx) []declMod {
+	vc := fr.vc()
+	switch m.Kind {
+	case "all", "heap":
+		return []declMod{{key: "*"}}
+	case "ghost":
+		if g := fr.enc.db.Ghosts[m.Name]; g != nil {
+			return []declMod{{key: vc.keyGhost(g)}}
+		}
+	case "ghostat":
+		if g := fr.enc.db.Ghosts[m.Name]; g != nil {
+			if k, err := ctx.tr(m.Expr); err == nil {
+				return []declMod{{key: vc.keyGhost(g), idx: k.S}}
+			}
+		}
+	case "field":
+		obj, err := ctx.tr(m.Expr)
+		if err != nil || obj.ty == nil {
+			break
+		}
+		t := deref(obj.ty)
+		if su, ok := t.Underlying().(*types.Struct); ok {
+			for i := 0; i < su.NumFields(); i++ {
+				f := su.Field(i)
+				if f.Name() != m.Fld {
+					continue
+				}
+				if isStruct(f.Type()) {
+					var out []declMod
+					sub := Term{fmt.Sprintf("(%s %s)", fr.enc.faFun(t, f.Name()), obj.S), SInt}
+					for _, c := range fr.cellsOf(sub, f.Type()) {
+						out = append(out, declMod{key: c.key, idx: c.idx})
+					}
+					return out
+				}
+				return []declMod{{key: vc.keyField(t, f.Name(), sortOf(f.Type())), idx: obj.S}}
+			}
+		}
+	case "fields", "cell":
+		obj, err := ctx.tr(m.Expr)
+		if err != nil || obj.ty == nil {
+			break
+		}
+		var out []declMod
+		for _, c := range fr.cellsOf(obj.Term, deref(obj.ty)) {
+			out = append(out, declMod{key: c.key, idx: c.idx})
+		}
+		return out
+	case "bytes":
+		if obj, err := ctx.tr(m.Expr); err == nil {
+			return []declMod{{key: vc.keyBM(), idx: fmt.Sprintf("(sl_base %s)", obj.S)}}
+		}
+	case "map":
+		obj, err := ctx.tr(m.Expr)
+		if err != nil || obj.ty == nil {
+			break
+		}
+		if mt, ok := obj.ty.Underlying().(*types.Map); ok {
+			d, v := vc.keyMap(mt)
+			return []declMod{{key: d, idx: obj.S}, {key: v, idx: obj.S}}
+		}
+	case "key":
+		return []declMod{{key: m.Name}}
+	}
+	return nil
 }
